@@ -124,7 +124,7 @@ func ruleEntryPoints(c *Ctx) {
 			if o == "!SupportedCPU()" {
 				cpuBad = true
 			}
-			if cd.Other == "" && cd.Op == token.NEQ && isNilAff(cd.R) && strings.HasPrefix(cd.L.String(), "var:opt(") {
+			if cd.Other == "" && cd.Op == token.NEQ && isNilAff(cd.R) && (strings.HasPrefix(cd.L.String(), "var:opt(") || strings.HasPrefix(cd.L.String(), "var:opts(")) { // `opt(pj)` of a range value, or `opts[i](pj)`
 				optErr = cd.L.String()
 			}
 		}
